@@ -19,7 +19,8 @@ Inductive vop :=
 | ORemove (id : Z) (err : Z)
 | OFlush
 | OSearch (rq : request) (err : Z) (out : list (Z * Z))
-| OTrain (vs : list vec) (err : Z).
+| OTrain (vs : list vec) (err : Z)
+| ODump (st : vstate).
 
 Definition pvop : P vop :=
   t <- pz ;;
@@ -28,7 +29,58 @@ Definition pvop : P vop :=
   else if t =? 3 then ret OFlush
   else if t =? 4 then (rq <- prequest ;; e <- pz ;; out <- ppairs ;; ret (OSearch rq e out))
   else if t =? 5 then (vs <- pvecs ;; e <- pz ;; ret (OTrain vs e))
+  else if t =? 6 then
+    (tr <- pbool ;; cs <- pvecs ;; bs <- plist pvecs ;;
+     ls <- plist (plist (id <- pz ;; v <- pvec ;; c <- pzs ;; ret {| e_id := id; e_vec := v; e_code := c |})) ;;
+     del <- pzs ;;
+     ret (ODump {| st_trained := tr; st_centroids := cs; st_codebooks := bs; st_lists := ls; st_deleted := del |}))
   else (fun _ => None).
+
+(** ---- structural comparison (verif snapshot) ---- *)
+Fixpoint veceq (a b : list Z) : bool :=
+  match a, b with
+  | [], [] => true
+  | x :: a', y :: b' => (F32.canon x =? F32.canon y) && veceq a' b'
+  | _, _ => false
+  end.
+Fixpoint list_eqb_by {A} (eq : A -> A -> bool) (a b : list A) : bool :=
+  match a, b with
+  | [], [] => true
+  | x :: a', y :: b' => eq x y && list_eqb_by eq a' b'
+  | _, _ => false
+  end.
+Definition entry_eqb (a b : entry) : bool :=
+  (e_id a =? e_id b) && veceq (e_vec a) (e_vec b) && list_eqb (e_code a) (e_code b).
+Definition state_eqb (a b : vstate) : bool :=
+  Bool.eqb (st_trained a) (st_trained b) &&
+  list_eqb_by veceq (st_centroids a) (st_centroids b) &&
+  list_eqb_by (list_eqb_by veceq) (st_codebooks a) (st_codebooks b) &&
+  list_eqb_by (list_eqb_by entry_eqb) (st_lists a) (st_lists b) &&
+  seteqz (st_deleted a) (st_deleted b).
+
+Definition min_key (l : list Z) : Z :=
+  fold_left (fun m x => if F32.ltb x m then x else m) l F32.pinf.
+
+(** what the property demands of the structure, evaluated on the implementation's own data:
+    every vector sits in the list of a nearest centroid, every code byte names a nearest codeword *)
+Definition struct_specb (p : params) (im : vstate) : bool :=
+  let cents := st_centroids im in
+  forallb (fun il =>
+    let '(li, l) := il in
+    forallb (fun e =>
+      (negb (uses_lists (p_kind p)) ||
+       (F32.key (dist (p_metric p) (e_vec e) (nthv cents li)) =?
+        F32.key (min_key (map (fun c => dist (p_metric p) (e_vec e) c) cents)))) &&
+      (negb (uses_codes (p_kind p)) ||
+       let base := match p_kind p with KIVFPQ => vsub (e_vec e) (nthv cents li) | _ => e_vec e end in
+       (length (e_code e) =? length (st_codebooks im))%nat &&
+       forallb (fun mbc =>
+          let '(m, book, c) := mbc in
+          let sv := subvec base (m * p_dsub p) (p_dsub p) in
+          (c <? Z.of_nat (length book)) &&
+          (F32.key (l2sq sv (nthv book c)) =? F32.key (min_key (map (fun cw => l2sq sv cw) book))))
+        (combine (combine (map Z.of_nat (seq 0 (length (st_codebooks im)))) (st_codebooks im)) (e_code e)))) l)
+   (combine (map Z.of_nat (seq 0 (length (st_lists im)))) (st_lists im)).
 
 (** tie-tolerant equality of a result list with the model's sorted candidate list *)
 Definition pair_in (x : Z * Z) (l : list (Z * Z)) : bool := existsb (pair_eqb x) l.
@@ -38,8 +90,17 @@ Definition match_results (full : list (Z * Z)) (n : nat) (r : list (Z * Z)) : bo
   && nodupz (map fst r) && forallb (fun x => pair_in x full) r.
 
 (** soundness against the history (independent of how the model searches) *)
-Definition sound_results (p : params) (live : list (Z * vec)) (rq : request) (single : option vec)
-           (r : list (Z * Z)) : bool :=
+Definition find_entry (im : vstate) (id : Z) : option (Z * entry) :=
+  find (fun le => e_id (snd le) =? id)
+       (flat_map (fun il => map (fun e => (fst il, e)) (snd il))
+                 (combine (map Z.of_nat (seq 0 (length (st_lists im)))) (st_lists im))).
+
+Definition pq_kind_score (p : params) (im : vstate) (pq : vec) (li : Z) (e : entry) : Z :=
+  adist (dist_tables p (st_codebooks im)
+           (match p_kind p with KIVFPQ => vsub pq (nthv (st_centroids im) li) | _ => pq end)) (e_code e).
+
+Definition sound_results (p : params) (live : list (Z * vec)) (impl : option vstate) (rq : request)
+           (single : option vec) (r : list (Z * Z)) : bool :=
   nodupz (map fst r) && asc32 (map snd r) &&
   ((r_k rq <=? 0) || (Z.of_nat (length r) <=? r_k rq)) &&
   forallb (fun x =>
@@ -51,6 +112,15 @@ Definition sound_results (p : params) (live : list (Z * vec)) (rq : request) (si
          | Some pq, (KFlat | KIVF) =>
              close32 64 (snd x) (dist (p_metric p) pq (snd lv)) &&
              negb (F32.gtb (r_thr rq) F32.zero && F32.gtb (snd x) (r_thr rq))
+         | Some pq, (KPQ | KIVFPQ) =>
+             negb (F32.gtb (r_thr rq) F32.zero && F32.gtb (snd x) (r_thr rq)) &&
+             match impl with
+             | Some im => match find_entry im (fst x) with
+                          | Some (li, e) => close32 64 (snd x) (pq_kind_score p im pq li e)
+                          | None => false
+                          end
+             | None => true
+             end
          | _, _ => true
          end
      end) r.
@@ -81,28 +151,33 @@ Definition full_probe (p : params) (rq : request) : bool :=
   | _ => false
   end.
 
-Record hstate := { h_model : vstate; h_live : list (Z * vec); h_i : Z; h_weak : Z }.
+Record hstate := { h_model : vstate; h_live : list (Z * vec); h_i : Z; h_weak : Z; h_impl : option vstate }.
 
 Definition step_check (p : params) (h : hstate) (o : vop) : hstate + list Z :=
   let s := h_model h in
-  let next s' live' weak := inl {| h_model := s'; h_live := live'; h_i := h_i h + 1; h_weak := h_weak h + weak |} in
+  let next s' live' weak := inl {| h_model := s'; h_live := live'; h_i := h_i h + 1; h_weak := h_weak h + weak; h_impl := h_impl h |} in
+  let nextc s' live' weak := inl {| h_model := s'; h_live := live'; h_i := h_i h + 1; h_weak := h_weak h + weak; h_impl := None |} in
   match o with
   | OAdd id v err =>
       let '(s', e) := vadd_op p s id v in
       if e =? err then
-        next s' (if e =? 0 then match preprocess (p_metric p) v with
+        nextc s' (if e =? 0 then match preprocess (p_metric p) v with
                                 | Some w => h_live h ++ [(id, w)] | None => h_live h end
                  else h_live h) 0
       else inr (verdict false (Bool.eqb (e =? 0) (err =? 0)) [h_i h; e])
   | ORemove id err =>
       let '(s', e) := vremove_op s id in
-      if e =? err then next s' (if e =? 0 then filter (fun lv => negb (fst lv =? id)) (h_live h) else h_live h) 0
+      if e =? err then nextc s' (if e =? 0 then filter (fun lv => negb (fst lv =? id)) (h_live h) else h_live h) 0
       else inr (verdict false (Bool.eqb (e =? 0) (err =? 0)) [h_i h; e])
-  | OFlush => next (vflush_op s) (h_live h) 0
+  | OFlush => nextc (vflush_op s) (h_live h) 0
   | OTrain vs err =>
       let '(s', e) := vtrain_op p s vs in
-      if e =? err then next s' (h_live h) 0
+      if e =? err then nextc s' (h_live h) 0
       else inr (verdict false (Bool.eqb (e =? 0) (err =? 0)) [h_i h; e])
+  | ODump im =>
+      if state_eqb s im then
+        inl {| h_model := s; h_live := h_live h; h_i := h_i h + 1; h_weak := h_weak h; h_impl := Some im |}
+      else inr (verdict false (struct_specb p im) [h_i h; -6])
   | OSearch rq err out =>
       let out := canon32_pairs out in
       match execute p s rq with
@@ -115,7 +190,7 @@ Definition step_check (p : params) (h : hstate) (o : vop) : hstate + list Z :=
               | [q], [] => preprocess (p_metric p) q
               | _, _ => None
               end in
-          let snd_ok := sound_results p (h_live h) rq single out &&
+          let snd_ok := sound_results p (h_live h) (h_impl h) rq single out &&
                         match single with
                         | Some pq => negb (full_probe p rq) || complete_results p (h_live h) rq pq out
                         | None => true
@@ -129,7 +204,7 @@ Definition step_check (p : params) (h : hstate) (o : vop) : hstate + list Z :=
                   (* a per-query cut fell inside a tie group: aggregated answers may differ
                      legitimately; only soundness is decidable here *)
                   (if snd_ok then next s (h_live h) 1 else inr (v_violation [h_i h; -1]))
-                else if match_results (xo_agg xo) n out then next s (h_live h) 0
+                else if match_results (if xo_single xo then xo_aggfull xo else xo_agg xo) n out then next s (h_live h) 0
                 else inr (verdict false snd_ok (h_i h :: 0 :: flatten_pairs (firstn n (xo_agg xo))))
             end
       end
@@ -147,4 +222,4 @@ Fixpoint run_check (p : params) (h : hstate) (ops : list vop) : list Z :=
 (** 200: params, ops *)
 Definition chk_vechist : P (list Z) :=
   p <- pparams ;; ops <- plist pvop ;;
-  ret (run_check p {| h_model := vinit p; h_live := []; h_i := 0; h_weak := 0 |} ops).
+  ret (run_check p {| h_model := vinit p; h_live := []; h_i := 0; h_weak := 0; h_impl := None |} ops).
